@@ -33,7 +33,7 @@ def run(chk, replay=None):
         # a connection whose reader has no running cell in the supergraph (e.g. a pruned sink) is never read: buffer_need is the empty maximum
         # (hugely negative) and rex lists no size for that reader
         by_node = {nm: sorted(mx[c] for c in cfg["conns"] if cfg["conns"][c]["out"] == nm and mx[c] > -10 ** 9) for nm in cfg["nodes"]}
-        impl = {nm: sorted(v) for nm, v in r["impl_sizes"].items()}
+        impl = {nm: sorted(x for x in v if x > -10 ** 9) for nm, v in r["impl_sizes"].items()}      # same sentinel on rex's side (clipped to >= 1 by Graph.init)
         if by_node != {nm: impl.get(nm, []) for nm in cfg["nodes"]}:
             chk.violation("buffer-sizes-differ-from-spec", f"Timings.get_buffer_sizes() = {impl}, specification (max over positions of written - still-needed + 1) = {by_node}", case)
         # tightness feature: with one slot less the symbolic check fails
